@@ -108,7 +108,7 @@ PIL = slc(psr, 8, 4)  # proc_interrupt_level
 S = slc(psr, 7, 1)  # supervisor mode
 PS = slc(psr, 6, 1)  # previous supervisor
 ET = slc(psr, 5, 1)  # enable Trap
-cwp = slc(psr, 0, 4)  # current window pointer
+cwp = slc(psr, 0, 5)  # current window pointer
 
 # tbr symbols:
 tba = slc(tbr, 12, 20)  # trap base address
